@@ -1,6 +1,6 @@
 (* Properties_C14.v — C14: ray casting visits a connected, in-bounds chain of cells covering the segment. *)
 From Coq Require Import Reals ZArith List Bool Arith Lia Lra.
-From Romea Require Import Num NumR GridMapModel GridMapProofs RayCastModel RayCastProofs RayCastMerge.
+From Romea Require Import Num NumR GridMapModel GridMapProofs RayCastModel RayCastProofs RayCastMerge RayCastSegment.
 Import ListNotations.
 
 (* The walk of cast(), over exact arithmetic, for a 2D or 3D caster whose per-axis steps point from the origin
@@ -83,11 +83,47 @@ Theorem C14_merge_counts : forall (d : nat) (m : nat -> nat) (c : nat -> nat -> 
 Proof. exact merge_counts. Qed.
 Print Assumptions C14_merge_counts.
 
-(* NOT PROVED (C14_cells_meet_segment_partial): that every visited cell is met by the segment.  It needs the
-   instantiation of C14_merge_counts with the crossing parameters of the model (c i j = parameter at which the ray
-   meets the j-th border of axis i; legitimate iff j <= |delta index_i| by floor arithmetic) — the statement and
-   the lemmas it needs are listed in DESIGN.md (C14); the property oracle checks it on every run with exact
-   rational segment/box intersection. *)
+(* Every cell visited by cast() is met by the segment (closed cell, closed segment), over exact arithmetic.
+   org/r: grid origin and resolution per axis; o: origin point; dirv: unit direction; rho: length of the segment, so that
+   pos i t = o_i + t * dirv_i is the ray and t in [0, rho] the segment.  Premises: the end point lies in the closed end
+   cell (C13), step = sign of the direction and increment * |direction| = r (C14_setup_establishes_invariant), the
+   invariant holds at T = 0 (the origin lies in its cell and every stored crossing parameter is where the ray meets the
+   border of the origin cell in the direction of travel — C14_setup_establishes_invariant again), plus the premises of
+   C14_cast_walk. *)
+Theorem C14_cells_meet_segment : forall d, (d = 2 \/ d = 3) ->
+  forall (r rho : R) (org o dirv : list R) (eidx step : list Z) (tdelta : list R) (B : R),
+  (0 < r)%R -> length eidx = d -> length step = d -> length tdelta = d -> (B < M)%R ->
+  (forall i, i < d -> (0 <= nth i tdelta 0)%R) ->
+  (forall i, i < d -> (lo r org i (nth i eidx 0%Z) <= pos o dirv i rho <= hi r org i (nth i eidx 0%Z))%R) ->
+  (forall i, i < d ->
+     (nth i step 0%Z = 1%Z /\ (0 < nth i dirv 0)%R /\ (nth i tdelta 0 * nth i dirv 0 = r)%R) \/
+     (nth i step 0%Z = (-1)%Z /\ (nth i dirv 0 < 0)%R /\ (nth i tdelta 0 * nth i dirv 0 = - r)%R) \/
+     (nth i step 0%Z = 0%Z /\ nth i dirv 0%R = 0%R)) ->
+  forall c : caster (T:=R),
+  length (rc_oidx c) = d -> length (rc_tmax c) = d -> rc_eidx c = eidx -> rc_step c = step -> rc_tdelta c = tdelta ->
+  (forall i, i < d -> (nth i eidx 0 - nth i (rc_oidx c) 0 = nth i step 0 * Z.abs (nth i eidx 0 - nth i (rc_oidx c) 0))%Z) ->
+  (forall i, i < d -> (0 < Z.abs (nth i eidx 0 - nth i (rc_oidx c) 0))%Z ->
+     (nth i (rc_tmax c) 0 + IZR (Z.abs (nth i eidx 0 - nth i (rc_oidx c) 0)%Z) * nth i tdelta 0 <= B)%R) ->
+  ginv d r rho org o dirv eidx step 0%R (rc_oidx c, rc_tmax c) ->
+  Forall (meets d r rho org o dirv) (cast_cells ROps c).
+Proof. exact cast_cells_meet_segment. Qed.
+Print Assumptions C14_cells_meet_segment.
+
+(* what setEndPoint computes per axis establishes those premises: the sign/increment relation and, for an origin
+   inside its cell, a non-negative first crossing parameter at which the ray meets the border of the origin cell *)
+Theorem C14_setup_establishes_invariant : forall (a : axis (T:=R)) (oc dirc : R) (oi : Z),
+  (0 < ax_r a)%R ->
+  (ax_org a + IZR oi * ax_r a <= oc <= ax_org a + (IZR oi + 1) * ax_r a)%R ->
+  let '(st, tm, td) := axis_setup ROps a oc oi dirc in
+  (st = 1%Z -> (0 < dirc /\ 0 <= tm /\ oc + tm * dirc = ax_org a + (IZR oi + 1) * ax_r a /\ td * dirc = ax_r a)%R) /\
+  (st = (-1)%Z -> (dirc < 0 /\ 0 <= tm /\ oc + tm * dirc = ax_org a + IZR oi * ax_r a /\ td * dirc = - ax_r a)%R) /\
+  (st = 0%Z -> dirc = 0%R).
+Proof. exact axis_setup_crossing. Qed.
+
+(* REMAINING GAP (assembly, not proved): lifting the per-axis theorems (C14_step_points_to_end_index,
+   C14_increment_nonnegative, C14_setup_establishes_invariant, the C13 theorems) to the list-level premises of C14_cast_walk and
+   C14_cells_meet_segment for the lists that set_end builds with map/combine, and the bound B on the crossing
+   parameters.  The exact-rational oracle checks the conclusion itself on every run. *)
 
 (* non-vacuity: a 2D caster on a 3-cell axis pair, origin cell (0,0), end cell (2,1) *)
 Example C14_ex :
